@@ -8,7 +8,8 @@
 (*   tie  : every small labelled lattice data set (sorted multisets of     *)
 (*          (x, z, label) rows, labels an initial segment) x the           *)
 (*          estimators whose result can hinge on a tie / on map order      *)
-(*   frac : five fixed points x every 3-class labelling x decision trees    *)
+(*   frac : five fixed points x every 3-class labelling x decision trees,   *)
+(*          incremental Gaussian naive Bayes                               *)
 (*          (class fractions that are not dyadic: order-dependent sums)    *)
 (*   blob : every estimator variant of the catalogue x generated data sets *)
 (*   hook : k-means family on small data with the kmeans.par hook recorded *)
@@ -55,7 +56,8 @@ Lat(s) == [NoData EXCEPT !.g = "lat", !.x = [p \in 1..Len(s) |-> <<KX(s[p]), KZ(
 FracX == << <<0, 0>>, <<1, 0>>, <<2, 1>>, <<3, 3>>, <<4, 0>> >>
 FracSets == {y \in [1..5 -> 0..2] : {y[p] : p \in 1..5} = 0..2}
 Frac(y) == [NoData EXCEPT !.g = "lat", !.x = FracX, !.y = y, !.n = 5, !.d = 2]
-FracEsts == {<<"tree", "gini", FALSE, FALSE>>, <<"tree", "entropy", FALSE, FALSE>>, <<"tree_str", "gini", FALSE, FALSE>>}
+FracEsts == {<<"tree", "gini", FALSE, FALSE>>, <<"tree", "entropy", FALSE, FALSE>>, <<"tree_str", "gini", FALSE, FALSE>>,
+             <<"nb_incr", "gaussian", FALSE, FALSE>>}
 
 \* ---- plans
 PlanSeq  == << <<1, 2>>, <<4, 1>> >>                                            \* sequential estimators
